@@ -592,7 +592,7 @@ def file_level(ck, pid, tier):
         base = tlc.subdir("files_%s_%d" % (pid, si))
         ind = os.path.join(base, "in")
         write_tree(ind, files)
-        ev = [cfg.event(TEXT_CLAUSES)] + ([] if pid == "C17" else api_events(cfg) + token_api_events(cfg, files))
+        ev = [cfg.event(TEXT_CLAUSES)] + api_events(cfg) + token_api_events(cfg, files)
         texts = [None] * len(ev)
         mapfile = os.path.join(base, "ip.map")
         if pid == "C17":
@@ -624,6 +624,31 @@ def file_level(ck, pid, tier):
         if pid == "C17":
             # the dumped map must list exactly the replacements used in the output files
             dump_events(mapfile, ev, texts)
+            if si == 0:
+                # library entry point, three runs in ONE process: default options / a run that preserves networks /
+                # default options again, writing its map: the third run's map and outputs are those of ITS options
+                lb = os.path.join(base, "lib")
+                lin = os.path.join(lb, "in")
+                ltxt = "host 198.51.100.7\nhost 198.51.100.9 203.0.113.5\npeer 2001:db8::7\nhost 11.12.13.14\n"
+                write_tree(lin, {"x.cfg": ltxt})
+                drv = ("import sys\nfrom netconan.anonymize_files import anonymize_files as f\nb=sys.argv[1]\n"
+                       "f(b+'/in', b+'/o1', False, True, salt='libsalt')\n"
+                       "f(b+'/in', b+'/o2', False, True, salt='libsalt', preserve_networks=['198.51.100.0/24', '203.0.113.0/24'])\n"
+                       "f(b+'/in', b+'/o3', False, True, salt='libsalt', dumpfile=b+'/m3')\n")
+                import subprocess
+                subprocess.run([sys.executable, "-c", drv, lb], env=dict(os.environ, PYTHONPATH=common.REPO), stdout=subprocess.PIPE, stderr=subprocess.PIPE, text=True)
+                lcfg = Cfg("libsalt", ps4=None, ps6=None)
+                ev3 = [lcfg.event(TEXT_CLAUSES)] + token_api_events(lcfg, {"x.cfg": ltxt})
+                tx3 = [None] * len(ev3)
+                o3 = os.path.join(lb, "o3", "x.cfg")
+                if not os.path.isfile(o3):
+                    ev3.append({"ev": "exc", "what": "third library run wrote no output"})
+                    tx3.append(("library x3", "EXC"))
+                else:
+                    pair_lines(ev3, tx3, "x.cfg", ltxt, open(o3).read())
+                    dump_events(os.path.join(lb, "m3"), ev3, tx3)
+                traces.append(ev3)
+                meta.append({"cfg": dict(lcfg.describe(), third_library_run_in_one_process=True), "via": "anonymize_files", "lines": [t if t else ("", "") for t in tx3], "head": 0})
             if si % 2 == 0:
                 # a SECOND run in the same process, same salt and options, its own map file: the second map must be
                 # complete on its own (nothing a run learned may be missing from its map because an earlier run knew it)
@@ -705,6 +730,27 @@ def file_level(ck, pid, tier):
             except Exception as e:
                 ev.append({"ev": "exc", "what": "no-salt run: %r" % (e,)})
                 texts.append(("nosalt", "EXC"))
+        if pid == "C02" and si < 3:
+            # library round trip with DIFFERENT host-bit counts for the two families (the command line cannot say that)
+            try:
+                p4, p6 = [(8, 0), (4, 32), (0, 16)][si]
+                fcfg = Cfg(salt + "/hb", ps4=p4, ps6=p6)
+                src = "".join("peer %s %s\n" % (D.ipaddress.IPv4Address(r.getrandbits(32)), D.ipaddress.IPv6Address(r.getrandbits(128))) for _ in range(6)) + "peer 2001:db8::1 1.2.3.4\n"
+                b1, b2 = io.StringIO(), io.StringIO()
+                fcfg.make_file_anonymizer().anonymize_io(io.StringIO(src), b1)
+                ucfg2 = Cfg(salt + "/hb", ps4=p4, ps6=p6, undo=True)
+                ucfg2.make_file_anonymizer().anonymize_io(io.StringIO(b1.getvalue()), b2)
+                ev2 = [fcfg.event(TEXT_CLAUSES)] + token_api_events(fcfg, {"s": src})
+                tx2 = [None] * len(ev2)
+                pair_lines(ev2, tx2, "forward", src, b1.getvalue())
+                ev2.append({"ev": "mode", "undo": True})
+                tx2.append(None)
+                pair_lines(ev2, tx2, "undo", b1.getvalue(), b2.getvalue())
+                traces.append(ev2)
+                meta.append({"cfg": fcfg.describe(), "via": "FileAnonymizer round trip, host bits per family", "lines": [t if t else ("", "") for t in tx2], "head": 0})
+            except Exception as e:
+                ev.append({"ev": "exc", "what": "round trip with host bits per family: %r" % (e,)})
+                texts.append(("hb-roundtrip", "EXC"))
         if pid == "C02":
             # undo FIRST on a long-lived pair of objects, then anonymize the result on the same objects, then undo again
             try:
@@ -730,7 +776,7 @@ def file_level(ck, pid, tier):
             # one long-lived pair of anonymizer objects asked to anonymize and to undo the SAME text, interleaved
             try:
                 a4, a6 = cfg.make()
-                texts_in = [ln for name in sorted(files) for ln in files[name].split("\n") if ln][:14]
+                texts_in = [ln for name in sorted(files) for ln in files[name].split("\n") if ln][:14] + [ln for ln in config_lines(cfg) if ln.startswith(("mask ", "ip address "))][:9]
                 fwd = [rewrite_stagewise(cfg, a4, a6, ln) for ln in texts_in]
                 for ln, o in zip(texts_in, fwd):
                     ev.append({"ev": "line", "in": cps(ln), "out": cps(o)})
@@ -738,7 +784,7 @@ def file_level(ck, pid, tier):
                 ucfg = Cfg(salt, ps4=cfg.ps4, ps6=cfg.ps6, pins=cfg.pins, nets=cfg.nets, undo=True)
                 ev.append({"ev": "mode", "undo": True})
                 texts.append(None)
-                for ln in texts_in[:7] + fwd[:7]:                      # originals and images, undone on the same objects
+                for ln in texts_in[:7] + fwd[:7] + fwd[14:] + texts_in[14:]:   # originals and images, undone on the same objects
                     o = rewrite_stagewise(ucfg, a4, a6, ln)
                     ev.append({"ev": "line", "in": cps(ln), "out": cps(o)})
                     texts.append((ln, o))
@@ -891,6 +937,35 @@ def hostbits_part_c04(ck, tier):
         traces.append(ev)
         meta.append({"cfg": dict(cfg.describe(), given_list=plist), "via": "stage+io", "lines": [t if t else ("", "") for t in texts], "head": 0})
     judge(ck, "C04", traces, meta, "prefix-list-with-ipv6-entries")
+    # the caller's OWN list object handed to several constructions (with an empty networks list), and one-shot iterables
+    traces, meta = [], []
+    plist = ["10.0.0.0/8", "150.20.0.0/16"]
+    shapes = [("same list object, first use", lambda: (plist, [])), ("same list object, second use", lambda: (plist, [])), ("same list object, third use", lambda: (plist, None)),
+              ("generator", lambda: ((x for x in ["10.0.0.0/8", "150.20.0.0/16"]), None)), ("map object", lambda: (map(str.strip, " 10.0.0.0/8 , 150.20.0.0/16".split(",")), None)),
+              ("tuple", lambda: (("10.0.0.0/8", "150.20.0.0/16"), None))]
+    rr = rng("C04", "listobj")
+    addrs = [0x0A000000 | rr.getrandbits(24) for _ in range(8)] + [0x96140000 | rr.getrandbits(16) for _ in range(6)] + [rr.getrandbits(32) for _ in range(6)]
+    lines = ["host %s" % D.ipaddress.IPv4Address(a) for a in addrs]
+    cfg = Cfg("listobj", ps4=0, ps6=0, pins=["10.0.0.0/8", "150.20.0.0/16"])
+    for name, mk in shapes:
+        ev = [cfg.event(["Structure", "Spelling", "Pins", "Suffix", "Consistent"])] + token_api_events(cfg, {"s": "\n".join(lines)})
+        texts = [None] * len(ev)
+        try:
+            pp, pn = mk()
+            fa = AF.FileAnonymizer(anon_pwd=False, anon_ip=True, salt=cfg.salt, preserve_prefixes=pp, preserve_networks=pn, preserve_suffix_v4=0, preserve_suffix_v6=0)
+            src = "\n".join(lines) + "\n"
+            buf = io.StringIO()
+            fa.anonymize_io(io.StringIO(src), buf)
+            pair_lines(ev, texts, name, src, buf.getvalue())
+        except Exception as e:
+            if name in ("generator", "map object"):
+                ck.notes.setdefault("prefix_list_shapes_refused", []).append("%s: %s" % (name, type(e).__name__))
+                continue
+            ev.append({"ev": "exc", "what": "%s: %r" % (name, e)})
+            texts.append((name, "EXC"))
+        traces.append(ev)
+        meta.append({"cfg": dict(cfg.describe(), list_shape=name), "via": "FileAnonymizer", "lines": [t if t else ("", "") for t in texts], "head": 0})
+    judge(ck, "C04", traces, meta, "prefix-list-objects")
 
 
 # ---------------------------------------------------------------------------
@@ -945,4 +1020,28 @@ def cli_part_c01(ck, tier):
         traces.append(ev)
         meta.append({"cfg": dict(cfg.describe(), cli=opts), "via": "main", "lines": [t if t else ("", "") for t in texts], "head": 0})
         ck.count(("c01cli", vi, sx))
+    # one long-lived pair of anonymizers used in BOTH directions through the public per-line call: what was undone first
+    # must afterwards be anonymized like everything else (common-prefix lengths among all answers)
+    for icfg in (Cfg("c01-both-ways"), Cfg("c01-both-ways-0", ps4=0, ps6=0, pins=[])):
+        try:
+            a4, a6 = icfg.make()
+            ucfg = Cfg(icfg.salt, ps4=icfg.ps4, ps6=icfg.ps6, pins=icfg.pins, undo=True)
+            ins = ["a 20.0.5.9 b 20.0.5.8", "p 2001:db8::7 q 2001:db8::6", "h 99.1.2.3 99.1.2.2"]
+            ev = [icfg.event(["Structure", "Spelling", "Consistent"])] + token_api_events(icfg, {"s": "\n".join(ins)}) + [{"ev": "mode", "undo": True}]
+            tx = [None] * len(ev)
+            for ln in ins[:2]:
+                o = rewrite_stagewise(ucfg, a4, a6, ln)
+                ev.append({"ev": "line", "in": cps(ln), "out": cps(o)})
+                tx.append((ln, o))
+            ev.append({"ev": "mode", "undo": False})
+            tx.append(None)
+            for ln in ins:
+                o = rewrite_stagewise(icfg, a4, a6, ln)
+                ev.append({"ev": "line", "in": cps(ln), "out": cps(o)})
+                tx.append((ln, o))
+            traces.append(ev)
+            meta.append({"cfg": icfg.describe(), "via": "stage, undo first then anonymize", "lines": [t if t else ("", "") for t in tx], "head": 0})
+        except Exception as e:
+            traces.append([icfg.event(["Structure"]), {"ev": "exc", "what": "both ways: %r" % (e,)}])
+            meta.append({"cfg": icfg.describe(), "via": "stage", "lines": [("", ""), ("both-ways", "EXC")], "head": 0})
     judge(ck, "C01", traces, meta, "command-line")
